@@ -203,7 +203,7 @@ CHECKS["C14"] = dict(
          "response, DNS associations still alive at +1.5 s (Long: +16.5 s) despite the short timeout, shutdown reclaims everything (goroutines/sockets back to baseline). "
          "Non-trivial = history with both DNS and non-DNS writes or a fast-close candidate (Deadlines); every batch (Lifecycle).",
     assumptions=["the fake outbound socket does not follow the wall clock: only an already-due deadline expires it", "real-time upper bounds are 2-3 s"],
-    units=[unit("props", ["Deadlines"], "C14", needs=["inpkg-service"]), unit("props", ["Lifecycle", "Long"], "C14")],
+    units=[unit("props", ["Deadlines"], "C14", needs=["inpkg-service"]), unit("props", ["Lifecycle", "Long", "Service"], "C14")],
 )
 
 CHECKS["C15"] = dict(
